@@ -752,17 +752,21 @@ def m_parse_f64(ex, callee, args):
             return ok(FP(float(txt)))
         except (ValueError, UnicodeDecodeError):
             return err(Opaque('ParseFloatError'))
-    # uninterpreted: a deterministic function of the string (one result per string object)
-    key = ('parse_f64', id(s))
+    # validity: Rust's f64 grammar, exactly; value: an uninterpreted function of the string
+    key = ('parse_f64', S.skey(s))
     ent = ex.uni.memo.get(key)
     if ent is None:
-        okb = ex.uni.fresh('parse_f64_ok', z3.BoolSort())
+        from . import rx
+        okb = z3bool(rx.is_match(F64_GRAMMAR, True, s))
         val = ex.uni.fresh('parse_f64_val', z3.Float64())
         ent = (okb, val, s)
         ex.uni.memo[key] = ent
     if ex.branch(ent[0]):
         return ok(FP(ent[1]))
     return err(Opaque('ParseFloatError'))
+
+
+F64_GRAMMAR = rb'^[+-]?(inf|infinity|nan|(\d+\.?\d*|\.\d+)(e[+-]?\d+)?)$'
 
 
 def parse_int_model(ex, s, ty):
@@ -811,7 +815,7 @@ def parse_int_terms(uni, s, ty):
     bs, ln, cap = S.parts(s)
     if cap > 18 or bits != 64:
         raise Unsupported('symbolic parse::<%s> with cap %d' % (ty, cap))
-    key = ('parse_int', ty, id(s))
+    key = ('parse_int', ty, S.skey(s))
     ent = uni.memo.get(key)
     if ent is None:
         def isdig(b):
